@@ -210,6 +210,20 @@ class EnsembleSampler(MarkovChain):
         [self.__advance_walker(i) for i in range(self.n_walkers)]
         self.n_iterations += 1
 
+    def take_step(self):
+        """
+        Advance the ensemble sampler by a single iteration, storing the
+        new walker positions as samples.
+        """
+        self.__advance_all()
+        if self.sample is None:
+            self.sample = self.walker_positions.copy()
+            self.sample_probs = self.walker_probs.copy()
+        else:
+            self.sample = concatenate([self.sample, self.walker_positions])
+            self.sample_probs = concatenate([self.sample_probs, self.walker_probs])
+        self.chain_length = self.sample_probs.size
+
     def advance(self, iterations: int):
         """
         Advance the ensemble sampler a chosen number of iterations.
